@@ -310,6 +310,20 @@ func (w *world) custodyOp(i int) TxSpec {
 	if k == 6 && i == 1 { // may be refused by the handler after the ante key check (key would not rotate): not for the enabled account
 		k = 2
 	}
+	if i != 1 && w.r.Chance(20) {
+		switch w.r.Intn(5) {
+		case 0:
+			return tx(i, fmt.Sprintf("a%d", i), custodytypes.NewMsgRemoveFromCustodyCustodians(a, w.acc[w.r.Intn(nAcc)].Addr, old, nk, "", ""))
+		case 1:
+			return tx(i, fmt.Sprintf("a%d", i), custodytypes.NewMsgRemoveFromCustodyLimits(a, denoms[w.r.Intn(len(denoms))], old, nk, "", ""))
+		case 2:
+			return tx(i, fmt.Sprintf("a%d", i), custodytypes.NewMsgDropCustodyWhiteList(a, old, nk, "", ""))
+		case 3:
+			return tx(i, fmt.Sprintf("a%d", i), custodytypes.NewMsgDropCustodyCustodians(a, old, nk, "", ""))
+		default:
+			return tx(i, fmt.Sprintf("a%d", i), custodytypes.NewMsgDropCustodyLimits(a, old, nk, "", ""))
+		}
+	}
 	switch k {
 	case 0, 1:
 		n := 2 + w.r.Intn(5)
@@ -337,6 +351,9 @@ func (w *world) blockReq(maxDt int64) abci.BlockReq {
 }
 
 func (w *world) mixedTx() []TxSpec {
+	if w.r.Chance(25) {
+		return []TxSpec{w.moreTx()}
+	}
 	switch w.r.Intn(12) {
 	case 0, 1:
 		return []TxSpec{w.bankSend()}
